@@ -171,6 +171,30 @@ def run(ctx):
                 err2 = fro(An - utils.quat_matmat(utils.quat_matmat(Ut, S), utils.quat_hermitian(Vt))) ** 2; opt = float(sum(float(x) ** 2 for x in sref[R:]))
                 if abs(err2 - opt) > 1e-8 * scv * scv: viol('C05:dependent-column:eckart-young', f'rank-{R} truncation error^2 {err2:.3e} != sum of discarded s^2 {opt:.3e}', dict(inp, R=R), err2, opt)
                 ctx.count(('dependent-column', m, n, dep, R), True)
+    # square matrices that are Hermitian, Hermitian with one zero eigenvalue, or Hermitian up to a relative asymmetry of 1e-5 .. 1e-8 (what a symmetric
+    # eigensolver shortcut would read as Hermitian): every truncation against an independent real embedding
+    for n in (3, 4) if ctx.quick() else (3, 4, 5, 6):
+        G = qx.rand_int(rng, n, n, -3, 3); Hh = qx.add(G, qx.herm(G))
+        for kind, asym in (('hermitian', None), ('hermitian-zero-row-and-column', None), ('almost-hermitian', 1e-5), ('almost-hermitian', 4e-6), ('almost-hermitian', 1e-7), ('almost-hermitian', 1e-8)):
+            Hn = qx.to_np(Hh).copy()
+            if kind == 'hermitian-zero-row-and-column': Hn[0, :] = 0 * Hn[0, :]; Hn[:, 0] = 0 * Hn[:, 0]
+            if asym is not None: Hn = Hn + asym * qx.to_np(qx.rand_int(rng, n, n, -3, 3)) * float(np.max(np.abs(quaternion.as_float_array(Hn)))) / 3.0
+            sref = np.linalg.svd(utils.real_expand(Hn), compute_uv=False)[::4][:n]
+            if float(np.min(np.abs(np.diff(sref)))) < 1e-3 * float(sref[0]): ctx.cov['discarded'] += 1; continue
+            inp = {'shape': [n, n], 'class': kind, 'relative asymmetry': asym, 'A': quaternion.as_float_array(Hn).tolist()}
+            for R in range(1, n + 1):
+                try: Ut, st, Vt = qsvd.classical_qsvd(Hn, R)
+                except Exception as e: viol('C05:near-hermitian:raises', f'classical_qsvd raised {e!r} for R={R}', inp); continue
+                scv = float(sref[0])
+                if not cm.all_finite(Ut, st, Vt): viol('C05:near-hermitian:nonfinite', 'classical_qsvd returned NaN / inf', dict(inp, R=R)); continue
+                if max(abs(float(a) - float(b)) for a, b in zip(st, sref[:R])) > 1e-9 * scv: viol('C05:near-hermitian:values', f'leading {R} singular values are wrong for a {kind} matrix (relative deviation {max(abs(float(a) - float(b)) for a, b in zip(st, sref[:R])) / scv:.1e})', dict(inp, R=R), np.asarray(st).tolist(), sref[:R].tolist())
+                eu = fro(utils.quat_matmat(utils.quat_hermitian(Ut), Ut) - utils.quat_eye(R)); ev = fro(utils.quat_matmat(utils.quat_hermitian(Vt), Vt) - utils.quat_eye(R))
+                if eu > 1e-9 or ev > 1e-9: viol('C05:near-hermitian:orthonormal', f'the truncated factors of a {kind} matrix do not have orthonormal columns (||U^H U - I|| = {eu:.2e}, ||V^H V - I|| = {ev:.2e}, R = {R})', dict(inp, R=R), (eu, ev))
+                S = np.zeros((R, R), dtype=np.quaternion)
+                for i in range(R): S[i, i] = quaternion.quaternion(float(st[i]), 0, 0, 0)
+                err2 = fro(Hn - utils.quat_matmat(utils.quat_matmat(Ut, S), utils.quat_hermitian(Vt))) ** 2; opt = float(sum(float(x) ** 2 for x in sref[R:]))
+                if abs(err2 - opt) > 1e-9 * scv * scv: viol('C05:near-hermitian:eckart-young', f'rank-{R} truncation error^2 {err2:.6e} != sum of discarded s^2 {opt:.6e} for a {kind} matrix', dict(inp, R=R), err2, opt)
+                ctx.count(('near-hermitian', n, kind, str(asym), R), True)
     res = cm.run_cases(ctx, 'cases_svd', HEADER, terms, 'check_svd', shard=40)
     if res is not None:
         ctx.cov['traces_validated_against_impl'] += len(res)
